@@ -162,7 +162,7 @@ func gen(seed int64, n int, tier string) []interface{} {
 			rnd.Shuffle(len(in.Ignore), func(a, b int) { in.Ignore[a], in.Ignore[b] = in.Ignore[b], in.Ignore[a] })
 		}
 		in.Sort = rnd.Intn(2) == 0
-		out = append(out, Case{Case: fmt.Sprintf("rand-%d-%d", seed, i), Input: in})
+		out = append(out, Case{Case: fmt.Sprintf("rand-%d-%d", seed, i), Input: in, Cli: in.Sort || rnd.Intn(3) == 0})
 	}
 	return out
 }
